@@ -20,6 +20,7 @@ import Pandora.Proofs.C08Coin
 import Pandora.Proofs.C08Pick
 import Pandora.Proofs.C08Size
 import Pandora.Bridge.ProvLoops
+import Pandora.Proofs.C08Comp
 import Pandora.Drv.C08
 
 namespace Pandora.Props.C08
@@ -1052,4 +1053,60 @@ example : (runGrpcSz ⟨.grpcJson, false, ⟨5, 3⟩, none⟩ [70000, 60] 0 none
 -- hypotheses of C08_size_unreadable
 example : (GrpcSt.init).pos < (List.range 2).length ∧ readable .grpcJson 0 [70000, 60] GrpcSt.init.passNum GrpcSt.init.pos = false := by decide
 
+/-! ## round 6: composition with the regenerated `config.SpreadNames`; the Spec on cut cells -/
+
+/-- **composition with the regenerated `config.SpreadNames`** (gen area `c15scen`, owned by C15, imported read-only and
+regenerated in C08's runs too): for EVERY weight vector of two or more scenarios the divisor the Go code computes
+(`math.GCDM` over the effective weights, regenerated statement by statement, bridged by `Bridge.C15Scen.GCDM_eq`) is the
+gcd `Model.C08.spreadCounts` divides by, and the number of copies of a scenario of weight `w` it puts into the ring
+(`int(weight / div)` over the effective weight, 0 counting as 1) is the count `Model.C08.spreadCounts` gives it — so
+`C08_weights_count` / `C08_weights_share` are about what the code builds.  (One scenario: `spreadSingle` = one copy.) -/
+theorem C08_weights_regenerated (ws : List Nat) (h2 : 2 ≤ ws.length) :
+    Gen.C15Scen.spreadDiv (ws.map fun (w : Nat) => Gen.C15Scen.spreadEffWeight (w : Int)) = some ((gcdList (normWeights ws) : Nat) : Int) ∧
+    (spreadCounts ws).map (fun (c : Nat) => (c : Int)) =
+      ws.map (fun (w : Nat) => Gen.C15Scen.spreadCnt (Gen.C15Scen.spreadEffWeight (w : Int)) ((gcdList (normWeights ws) : Nat) : Int)) ∧
+    Gen.C15Scen.spreadSingle = (1, 1) := by
+  have hmap : (ws.map fun (w : Nat) => Gen.C15Scen.spreadEffWeight (w : Int)) = (normWeights ws).map (fun (w : Nat) => (w : Int)) := by
+    simp [normWeights, List.map_map, Function.comp_def, effWeight_cast]
+  refine ⟨?_, ?_, rfl⟩
+  · unfold Gen.C15Scen.spreadDiv
+    rw [hmap, Bridge.C15Scen.GCDM_eq, Proofs.C15.GCDM_nat (normWeights ws) ?_ (by simpa [normWeights] using h2), gcdList_eq_c15]
+    intro w hw
+    simp only [normWeights, List.mem_map] at hw
+    obtain ⟨v, _, rfl⟩ := hw
+    split <;> omega
+  · simp only [spreadCounts, normWeights, List.map_map, Function.comp_def]
+    apply List.map_congr_left
+    intro w _
+    rw [effWeight_cast]
+    rfl
+
+
+/-- **Spec holds of Model.run, cut cells** — the drain cells the harness cuts at or below the bound (`cap ≤ M`: the
+consumer that makes the `cap`-th acquisition cancels): exactly `cap` acquired, `Run` = nil or Canceled, sink closed -/
+theorem C08_spec_holds_cut (k : Kind) (preload : Bool) (limit passes n cap m : Nat) (hn : 0 < n) (hcap : 0 < cap)
+    (hE : Spec.C08.expected limit passes n = some m) (hle : cap ≤ m) :
+    Spec.C08.holds { limit, passes, n, cap }
+      (Drv.C08.obsOf cap 0 (run ⟨k, preload, ⟨limit, passes⟩, some cap⟩ n)) = true := by
+  obtain ⟨o, h1, h2, h3, h4⟩ := C08_cancel k preload ⟨limit, passes⟩ n m cap hn hE
+  have hmin : min cap m = cap := Nat.min_eq_left hle
+  have hl : o.delivered.length = cap := by rw [h2]; simp [cyc, hmin]
+  rw [h1]
+  have hc0 : cap ≠ 0 := by omega
+  rcases h3 with h3 | h3 <;>
+    simp [Drv.C08.obsOf, Spec.C08.holds, Spec.C08.countOk, Spec.C08.want, Spec.C08.wantCut, Spec.C08.bounded, hE, hl, hle, hcap, hc0, hmin,
+      Spec.C08.returnsOk, Spec.C08.runOk, Spec.C08.endOk, Spec.C08.spinOk, h3, h4, Drv.C08.classOf, Spec.C08.opsBound]
+
+/-- **Spec holds of Model.run** for EVERY drain cell with a cap (cut or not, bounded or not) -/
+theorem C08_spec_holds_all (k : Kind) (preload : Bool) (limit passes n cap : Nat) (hn : 0 < n) (hcap : 0 < cap) :
+    Spec.C08.holds { limit, passes, n, cap }
+      (Drv.C08.obsOf cap 0 (run ⟨k, preload, ⟨limit, passes⟩, some cap⟩ n)) = true := by
+  cases hE : Spec.C08.expected limit passes n with
+  | none => exact C08_spec_holds k preload limit passes n cap hn hcap (by intro m hm; rw [hE] at hm; cases hm)
+  | some m =>
+    by_cases hle : cap ≤ m
+    · exact C08_spec_holds_cut k preload limit passes n cap m hn hcap hE hle
+    · exact C08_spec_holds k preload limit passes n cap hn hcap (by intro m' hm; rw [hE] at hm; cases hm; omega)
+
+example : Spec.C08.expected 5 2 3 = some 5 ∧ (3 : Nat) ≤ 5 := by decide
 end Pandora.Props.C08
